@@ -89,6 +89,9 @@ Proof.
   - intros H. destruct (IH H) as [H1 H2]. split; [right; exact H1 | exact H2].
 Qed.
 
+Lemma rekey_all_on sl : rekey all_on sl = true.
+Proof. unfold rekey. destruct (sl =? CHOL); reflexivity. Qed.
+
 (* ---- one consultation from a valid cache returns a current entry and keeps the cache valid *)
 Section Consult.
 Variable fam : family.
@@ -131,7 +134,7 @@ Proof.
   assert (Hfe_c : entry_cur fam v w k fe) by (unfold entry_cur, fe; cbn [e_tag e_slot]; exact Hnt).
   assert (Hfe_o : obs fe = (u_key u, cur_tag fam v w k (u_slot u))).
   { unfold obs, fe. cbn [e_key e_tag]. rewrite Hnt. reflexivity. }
-  unfold consult. fold fe. cbn [p_pop all_on].
+  unfold consult. fold fe. rewrite rekey_all_on.
   destruct (u_single u).
   - destruct (lookup_slot (u_slot u) c) as [x|] eqn:Hl.
     + destruct (lookup_slot_In _ _ _ Hl) as [Hin Hsl].
@@ -180,7 +183,7 @@ Proof.
   unfold consult. destruct (u_single u).
   - destruct (lookup_slot (u_slot u) c) as [x|].
     + destruct (e_key x =? u_key u); [intros H; injection H as <- <-; exact Hs|].
-      destruct (p_pop pts); intros H; injection H as <- <-; [|exact Hs].
+      destruct (rekey pts (u_slot u)); intros H; injection H as <- <-; [|exact Hs].
       constructor; [exact Hslot | apply drop_Forall; exact Hs].
     + intros H. injection H as <- <-. constructor; [exact Hslot | exact Hs].
   - destruct (lookup (u_slot u) (u_key u) c) as [x|]; intros H; injection H as <- <-; [exact Hs|].
@@ -678,7 +681,12 @@ Lemma dropped_refutes :
   differs all_on fam_kiss_cached_copy [OBackward; OFantasy] 0 = false /\
   fst (snd (step all_on fam_kiss (run all_on fam_kiss init [OBackward]) OFantasy)) = ST_OK /\
   (bwd_status all_on fam_exact [OPredict 2; OBackward] = ST_OK /\
-   bwd_status (points_without 5) fam_exact [OPredict 2; OBackward] = ST_ERR).
+   bwd_status (points_without 5) fam_exact [OPredict 2; OBackward] = ST_ERR) /\
+  (differs (points_without 14) (fam_var true) [OPredict 8] 0 = true /\
+   differs (points_without 14) (fam_var false) [OPredict 9; OPrior] 5 = true /\
+   differs (points_without 14) (fam_var true) [OPredict 0] 4 = true /\
+   differs (points_without 14) fam_exact [OPredict 8] 0 = false /\
+   differs (points_without 10) (fam_var true) [OPredict 8] 0 = false).
 Proof. vm_compute. repeat split. Qed.
 
 Lemma differs_sound pts fam h c : differs pts fam h c = true ->
@@ -715,6 +723,16 @@ Lemma ex_hist_settings_ok :
   training (run all_on (fam_var true) init ex_hist_var) = false /\
   sck (run all_on (fam_var true) init ex_hist_var) = 1 /\
   length (cch (run all_on (fam_var true) init ex_hist_var)) = 2.
+Proof. vm_compute. repeat split. Qed.
+
+(* a history through predictions at all three input batch shapes of a variational GP: the single Cholesky
+   entry ends up keyed by the shape of the last call *)
+Definition ex_hist_shapes : list op := [OPredict 8; OPredict 0; OPredict 5; OBackward; OPredict 11; OFantasy; OPredict 4].
+Lemma ex_hist_shapes_ok :
+  admissible all_on (fam_var true) init ex_hist_shapes = true /\
+  training (run all_on (fam_var true) init ex_hist_shapes) = false /\
+  map (fun e => (e_slot e, e_key e)) (cch (run all_on (fam_var true) init ex_hist_shapes)) = [(CHOL, 1); (VDIST, 0)] /\
+  map (fun u => (u_slot u, u_key u)) (f_uses (fam_var true) 9) = [(VDIST, 0); (CHOL, 2)].
 Proof. vm_compute. repeat split. Qed.
 
 Lemma ex_train_uses_ok :
